@@ -3,7 +3,7 @@ From C03 Require Import Model Proofs.
 
 Theorem C03_version_upgrade_refuted :
   frozen_parents bad_hist = true /\
-  view blake2b_256 false (run blake2b_256 false false false bad_hist init_state) 0
-    <> view blake2b_256 false (run blake2b_256 false false false (firstn 3 bad_hist) init_state) 0.
+  view blake2b_256 false (run blake2b_256 false false bad_hist init_state) 0
+    <> view blake2b_256 false (run blake2b_256 false false (firstn 3 bad_hist) init_state) 0.
 Proof. exact version_upgrade_refuted. Qed.
 Print Assumptions C03_version_upgrade_refuted.
